@@ -619,6 +619,27 @@ class EvolutionOperations(BaseEvolutionOperations):
             django_evolution.db.sql_result.SQLResult:
             The resulting SQL for rebuilding the table.
         """
+        # The indexes on just this column go away along with it. Stop
+        # tracking them, so that the column can be added back (along with
+        # an index) later on.
+        database_state = self.database_state
+        table_name = model._meta.db_table
+        columns = [field.column]
+
+        for unique in (False, True):
+            index_state = database_state.find_index(table_name=table_name,
+                                                    columns=columns,
+                                                    unique=unique)
+
+            while index_state is not None:
+                database_state.remove_index(table_name=table_name,
+                                            index_name=index_state.name,
+                                            unique=unique)
+                index_state = database_state.find_index(
+                    table_name=table_name,
+                    columns=columns,
+                    unique=unique)
+
         return SQLiteAlterTableSQLResult(
             evolver=self,
             model=model,
